@@ -328,6 +328,12 @@ Lemma names_for_nonascii m lv fr :
   assoc "firstname" lv = Some fr -> isascii fr = false -> names_for m lv = None.
 Proof. intros H A. unfold names_for, clean, clean_str. rewrite H, A. reflexivity. Qed.
 
+Theorem email_non_ascii_falls_back :
+  forall matching lv fr tpl year dom ase,
+    assoc "firstname" lv = Some fr -> isascii fr = false ->
+    email_of matching lv tpl year dom ase = Ok ase.
+Proof. intros. apply email_fallback. eapply names_for_nonascii; eauto. Qed.
+
 (* ------------------------------------------------------------------ username *)
 
 (* the two names that go into the name part *)
@@ -739,4 +745,36 @@ Proof.
   destruct (get_fake tbl ni q) as [[src n]|]; [|discriminate].
   match goal with |- bind ?X _ = _ -> _ => destruct X as [[v1 s1]|] end; cbn [bind]; [|discriminate].
   intros H; inversion H; subst. cbn [s_lv assoc]. rewrite String.eqb_refl. reflexivity.
+Qed.
+
+(* ------------------------------------------------------------------ the bound is needed *)
+
+(* values Faker produced for locale en_TH (corpus/C18/k1_uuid_truncated_away.json) *)
+Definition k1_lv : lvars :=
+  [("lastname"%string, of_string "Lertsattayanusak"); ("firstname"%string, of_string "Pattatomporn")].
+Definition k1_host : str := of_string "desktop-68.kongchayasukawut-lertsattayanusak.info".
+Definition k1_uuid1 : str := of_string "ba2eaeb9-5c8e-474a-9d9b-d5ad0f343e7a".
+Definition k1_uuid2 : str := of_string "04d14a19-0793-4130-8bbf-8f29cbf6c1f2".
+
+Theorem username_unique_refuted :
+  exists matching lv host ff fl uuid1 uuid2,
+    (length host <= 79)%nat /\ no_at host = true /\
+    length uuid1 = 36%nat /\ length uuid2 = 36%nat /\ no_at uuid1 = true /\ no_at uuid2 = true /\
+    uuid1 <> uuid2 /\
+    user_name_of matching lv host ff fl uuid1 = user_name_of matching lv host ff fl uuid2.
+Proof.
+  exists true, k1_lv, k1_host, [], [], k1_uuid1, k1_uuid2.
+  splits; try (vm_compute; reflexivity); try (vm_compute; lia).
+  vm_compute. discriminate.
+Qed.
+
+(* a host name of 80 or more characters makes the stop index negative: the slice then drops
+   characters from the end instead of limiting the length *)
+Theorem username_shape_needs_host_bound :
+  exists matching lv host ff fl uuid,
+    length host = 80%nat /\ no_at host = true /\
+    (length (user_name_of matching lv host ff fl uuid) > 80)%nat.
+Proof.
+  exists true, k1_lv, (repeat 104 80), [], [], k1_uuid1.
+  splits; try (vm_compute; reflexivity). vm_compute. lia.
 Qed.
